@@ -7,4 +7,5 @@ BigPLs == {16383, 16384, 16385}
 BigFLs(p) == {0, 1, p - 1, p, p + 1, 2 * p + 5}
 HugePLs == {262144}
 HugeFLs(p) == {0, 7, p - 1, p, p + 1}
+CreateFLs(p) == {0, 1, p - 1, p, p + 1, 2 * p, 2 * p + 1, 3 * p - 1}
 ====
